@@ -31,6 +31,7 @@ import (
 	"time"
 
 	"mvdan.cc/garble/internal/linker"
+	"mvdan.cc/garble/internal/verifhook"
 )
 
 const actionGraphFileName = "action-graph.json"
@@ -242,11 +243,14 @@ func mainErr(args []string) error {
 	case "bug":
 		return commandBug(args)
 	case "build", "test", "run":
+		verifhook.Event("top.begin", "command", command, "args", args)
 		cmd, err := toolexecCmd(command, args)
 		defer func() {
+			verifhook.Point("top.beforeCleanup")
 			if err := os.RemoveAll(os.Getenv("GARBLE_SHARED")); err != nil {
 				fmt.Fprintf(os.Stderr, "could not clean up GARBLE_SHARED: %v\n", err)
 			}
+			verifhook.Point("top.beforeTrim")
 			// skip the trim if we didn't even start a build
 			if sharedCache != nil && sharedCache.CacheDir != "" {
 				fsCache, err := openCache()
@@ -263,6 +267,8 @@ func mainErr(args []string) error {
 		}
 		cmd.Stdout = os.Stdout
 		cmd.Stderr = os.Stderr
+		verifhook.Event("top.gocmd", "argv", cmd.Args)
+		verifhook.Point("top.afterList")
 		log.Printf("calling via toolexec: %s", cmd)
 		if err := cmd.Run(); err != nil {
 			return err
@@ -275,6 +281,7 @@ func mainErr(args []string) error {
 			tool = strings.TrimSuffix(tool, ".exe")
 		}
 		transform := transformMethods[tool]
+		verifhook.Event("toolexec.begin", "tool", tool, "nargs", len(args))
 		transformed := args[1:]
 		if transform != nil {
 			startTime := time.Now()
@@ -322,14 +329,17 @@ func mainErr(args []string) error {
 			}
 
 			log.Printf("replaced linker with: %s", executablePath)
+			verifhook.Event("link.exec", "digest", verifhook.FileDigest(executablePath))
 		}
 
+		verifhook.Point("toolexec.beforeExec." + tool)
 		cmd := exec.Command(executablePath, transformed...)
 		cmd.Stdout = os.Stdout
 		cmd.Stderr = os.Stderr
 		if err := cmd.Run(); err != nil {
 			return err
 		}
+		verifhook.Event("toolexec.end", "tool", tool)
 		return nil
 	default:
 		return fmt.Errorf("unknown command: %q", command)
